@@ -20,8 +20,7 @@ NOT_APPLICABLE = {
     "C20": "per-instruction cycle mix is a pure function of instruction form and placement: " + PURE,
 }
 PENDING = "check not built yet in this session (claimed in DESIGN.md; will move to checks when its machinery is committed)"
-for p in ["C15"]:
-    NOT_APPLICABLE[p] = PENDING
+
 
 CLAIMED = {
     "C17": {
@@ -72,5 +71,12 @@ CLAIMED = {
         "design_ref": "DESIGN.md 5 (C14)",
         "level_text": "seeded exploration of call sequences in generated guests inside the real run(): stdout messages and console bytes must be exactly the buffers, once each, in program order and in order relative to marker ioport messages; registers, CCR and a digest of all memory must be unchanged across every write call; after set_handler(v in 1-63, a) an injected request v must enter exactly a, other vector numbers must leave the table untouched, and any other call number must make run() return an error at that instruction.",
         "level_note": "scope as stated in DESIGN.md: buffer contents are sampled by the generator, not enumerated",
+    },
+    "C15": {
+        "engine": "des",
+        "technique": "deterministic simulation with fault injection: seeded corruption of running guests (code, registers, stack/PC, bus-controller settings, vectors, argument blocks, control-line fuzz) and random instruction storms at region edges, under catch_unwind in two build profiles; panic site = violation",
+        "design_ref": "DESIGN.md 5 (C15)",
+        "level_text": "seeded fault injection into the real Cpu::run in the release and the overflow-checked profile: every run must end as Ok, Err or the simulator's step cap; a panic (or a dying worker process) is a violation keyed by its source site, minimised and replayed. Sampling over instruction words x register files x settings x fault schedules, not enumeration.",
+        "level_note": "checked profile = release + overflow-checks (debug-assertions stay off so that the opcode trace printing of debug builds does not flood the run); allocation failure is only covered through an address-space limit on the worker processes",
     },
 }
